@@ -53,6 +53,12 @@ func (r *Run) record(n *Node, field string, args map[string]interface{}) {
 }
 
 func fieldValue(n *Node, field string, args map[string]interface{}) interface{} {
+	switch field {
+	case "tri":
+		return fmt.Sprintf("%v/%v/%v", args["a"], args["b"], args["c"])
+	case "rev":
+		return fmt.Sprintf("x=%v,y=%v", args["x"], args["y"])
+	}
 	if field == "echo" || field == "set" {
 		if field == "set" {
 			return fmt.Sprintf("set:%v", args["s"])
@@ -78,6 +84,9 @@ type rroot struct {
 func (x *rroot) Resolve(field *ggql.Field, args map[string]interface{}) (interface{}, error) {
 	switch field.Name {
 	case "query":
+		if x.r.Rep != nil {
+			return x.r.Rep(x.r.G.Root), nil
+		}
 		return &rnode{x.r, x.r.G.Root, x.car}, nil
 	case "mutation":
 		return &rnode{x.r, x.r.G.Mut, x.car}, nil
@@ -105,6 +114,9 @@ func (x *rnode) wrap(v interface{}) interface{} {
 	case *Node:
 		if tv == nil {
 			return nil
+		}
+		if x.r.Rep != nil {
+			return x.r.Rep(tv)
 		}
 		return &rnode{x.r, tv, x.car}
 	case EnumVal:
@@ -166,7 +178,7 @@ func (ar *AnyRes) Resolve(obj interface{}, field *ggql.Field, args map[string]in
 	case *anyRootObj:
 		switch field.Name {
 		case "query":
-			return ar.r.G.Root, nil
+			return ar.wrap(ar.r.G.Root), nil
 		case "mutation":
 			return ar.r.G.Mut, nil
 		}
@@ -178,7 +190,35 @@ func (ar *AnyRes) Resolve(obj interface{}, field *ggql.Field, args map[string]in
 		}
 		return ar.wrap(fieldValue(to, field.Name, args)), nil
 	}
+	if n := nodeBehind(obj); n != nil {
+		// a reflection struct (or a Resolver object reached although it should have answered itself) under an installed
+		// root resolver: answer from the real node; precedence probes compare this with the decoy values in the struct
+		ar.r.record(n, field.Name, args)
+		ar.r.Probe = append(ar.r.Probe, fmt.Sprintf("any<-%T", obj))
+		if err := ar.r.fault(CallKey{n.ID, field.Name}); err != nil {
+			return nil, err
+		}
+		return ar.wrap(fieldValue(n, field.Name, args)), nil
+	}
 	return nil, fmt.Errorf("AnyRes: unexpected %T", obj)
+}
+
+func nodeBehind(obj interface{}) *Node {
+	switch to := obj.(type) {
+	case *A:
+		return to.Xn
+	case *B:
+		return to.Xn
+	case *C:
+		return to.Xn
+	case *Query:
+		return to.Xn
+	case *rnode:
+		return to.n
+	case *RF:
+		return to.Xn
+	}
+	return nil
 }
 
 func (ar *AnyRes) wrap(v interface{}) interface{} {
@@ -186,6 +226,9 @@ func (ar *AnyRes) wrap(v interface{}) interface{} {
 	case *Node:
 		if tv == nil {
 			return nil
+		}
+		if ar.r.Rep != nil {
+			return ar.r.Rep(tv)
 		}
 		return tv
 	case EnumVal:
@@ -247,6 +290,27 @@ type Common struct {
 
 	Strs []string
 	Ints []int
+
+	Title string // GraphQL "title": differs from the Go name by case only
+	Dual  string // GraphQL "dual": a field and a method (DUAL) both match; the field must win
+}
+
+// DUAL must never be called: the struct field Dual answers the GraphQL field dual.
+func (c *Common) DUAL() string { return "METHOD-MUST-NOT-WIN" }
+
+func (c *Common) Tri(a, b, cc string) (interface{}, error) {
+	c.Xr.record(c.Xn, "tri", map[string]interface{}{"a": a, "b": b, "c": cc})
+	if err := c.Xr.fault(CallKey{c.Xn.ID, "tri"}); err != nil {
+		return nil, err
+	}
+	return fmt.Sprintf("%v/%v/%v", a, b, cc), nil
+}
+
+// Rev takes its parameters in the opposite order of the GraphQL declaration rev(x, y): correct only
+// when registered with RegisterField(type, "rev", "Rev", "y", "x").
+func (c *Common) Rev(y, x string) (interface{}, error) {
+	c.Xr.record(c.Xn, "rev", map[string]interface{}{"x": x, "y": y})
+	return fmt.Sprintf("x=%v,y=%v", x, y), nil
 }
 
 type A struct{ Common }
@@ -292,21 +356,25 @@ func (c *Common) Mkid() (interface{}, error) {
 	if err != nil || v == nil {
 		return nil, err
 	}
-	return c.Xr.fsb.obj(v.(*Node)), nil
+	return c.Xr.fsb.rep(v.(*Node)), nil
 }
 func (c *Common) Mkids() (interface{}, error) {
 	v, err := c.call("mkids")
 	if err != nil || v == nil {
 		return nil, err
 	}
-	return c.Xr.fsb.as(v.([]interface{})), nil
+	l := v.([]interface{})
+	if c.Xr.Rep != nil {
+		return c.Xr.fsb.anys(l), nil
+	}
+	return c.Xr.fsb.as(l), nil
 }
 func (c *Common) Mnamed() (interface{}, error) {
 	v, err := c.call("mnamed")
 	if err != nil || v == nil {
 		return nil, err
 	}
-	return c.Xr.fsb.obj(v.(*Node)), nil
+	return c.Xr.fsb.rep(v.(*Node)), nil
 }
 
 func (m *Mutation) Set(s string) (interface{}, error) {
@@ -320,6 +388,17 @@ func (m *Mutation) Set(s string) (interface{}, error) {
 type fsBuilder struct {
 	r    *Run
 	objs map[*Node]interface{}
+}
+
+// rep returns the representation of a node reached through an interface{}-typed slot.
+func (b *fsBuilder) rep(n *Node) interface{} {
+	if n == nil {
+		return nil
+	}
+	if b.r.Rep != nil {
+		return b.r.Rep(n)
+	}
+	return b.obj(n)
 }
 
 func (b *fsBuilder) common(n *Node) *Common {
@@ -383,6 +462,8 @@ func (b *fsBuilder) obj(n *Node) interface{} {
 	if e, ok := n.F["e"].(EnumVal); ok {
 		c.E = string(e)
 	}
+	c.Title, _ = n.F["title"].(string)
+	c.Dual, _ = n.F["dual"].(string)
 	c.Bo, _ = n.F["bo"].(bool)
 	c.F, _ = n.F["f"].(float64)
 	c.Kid, _ = b.obj(nodeOf(n.F["kid"])).(*A)
@@ -405,8 +486,8 @@ func (b *fsBuilder) obj(n *Node) interface{} {
 			}
 		}
 	}
-	c.Named = b.obj(nodeOf(n.F["named"]))
-	c.U = b.obj(nodeOf(n.F["u"]))
+	c.Named = b.rep(nodeOf(n.F["named"]))
+	c.U = b.rep(nodeOf(n.F["u"]))
 	if l, ok := n.F["nameds"].([]interface{}); ok {
 		c.Nameds = b.anys(l)
 	}
@@ -445,7 +526,7 @@ func (b *fsBuilder) anys(l []interface{}) []interface{} {
 	out := make([]interface{}, len(l))
 	for i, e := range l {
 		if n := nodeOf(e); n != nil {
-			out[i] = b.obj(n)
+			out[i] = b.rep(n)
 		}
 	}
 	return out
